@@ -348,9 +348,20 @@ func guarded(f func()) (o outcome) {
 	case <-time.After(watchdog):
 		o.timeout = true
 		timeouts++
+	case <-spinCh:
+		// the call keeps reading a scripted source that has reported its end or a failure thousands of times in a row:
+		// it is not going to return (the reader has parked the goroutine; nothing more is logged)
+		o.timeout = true
+		timeouts++
 	}
 	return
 }
+
+// spin detection for scripted sources: failed reads in a row within one call (reset by recNewMnemonic)
+var spinCh = make(chan struct{}, 1)
+var failedReadsInCall int32
+
+const spinLimit = 2000
 
 func (o outcome) into(e Event) Event {
 	e["panicked"], e["panic"], e["timeout"] = o.panicked, units(o.panicTxt), o.timeout
